@@ -622,7 +622,6 @@ def scenarios(tier, seed):
         add("indexing", n=3, t=2, batch=2, inter=inter, alphabet="q")
     if tier == "thorough":
         add("constructors", n=2, t=3)
-        add("arithmetic", n=2, t=3)
         add("constructors_batched", n=2, t=3, bshape=[2, 2], task_pos=1)
         add("constructors_batched", n=2, t=2, bshape=[2, 3], task_pos=0)
         add("constructors_batched", n=2, t=2, bshape=[3, 2], task_pos=2)
